@@ -533,7 +533,16 @@ func (vc *VC) evalUnary(st *State, e *ast.UnaryExpr) Term {
 		return vc.freshRef(st, "addr")
 	case token.ARROW:
 		ch := vc.eval(st, e.X)
-		return vc.chanRecv(st, ch, vc.typeOf(e))
+		var pre *State
+		if len(vc.anchoredNodes[e]) > 0 {
+			pre = st.clone()
+			vc.nodeAnchors(st, e, "before", nil, pre)
+		}
+		v := vc.chanRecv(st, ch, vc.typeOf(e))
+		if pre != nil {
+			vc.nodeAnchors(st, e, "after", []Term{v}, pre)
+		}
+		return v
 	}
 	vc.note("unsupported unary %s", e.Op)
 	return vc.unknown("unary", vc.typeOf(e))
